@@ -202,12 +202,13 @@ fn noop_helper(_a: u64, _b: u64, _c: u64, _d: u64, _e: u64) -> u64 {
 fn body_insns(e: &ExecSpec) -> Vec<[u8; 8]> {
     let mut v: Vec<[u8; 8]> = Vec::new();
     for a in &e.adds {
-        // base register = region + bias
-        if a.base_reg != 1 || a.bias != 0 {
+        // base register = region + bias, always rebuilt from the callee-saved copy in r6 (any
+        // register may have been used as a source since)
+        if a.base_reg != 6 {
             v.push(ins(0xbf, a.base_reg, 6, 0, 0));
-            if a.bias != 0 {
-                v.push(ins(0x07, a.base_reg, 0, 0, a.bias));
-            }
+        }
+        if a.bias != 0 {
+            v.push(ins(0x07, a.base_reg, 0, 0, a.bias));
         }
         let src_reg = if a.src_is_base { a.base_reg } else { a.src_reg };
         if a.src_is_base {
@@ -220,9 +221,6 @@ fn body_insns(e: &ExecSpec) -> Vec<[u8; 8]> {
         }
         let disp = a.off as i32 - a.bias;
         v.push(ins(if a.width == 4 { 0xc3 } else { 0xdb }, a.base_reg, src_reg, disp as i16, 0));
-        if a.base_reg == 1 && a.bias != 0 {
-            v.push(ins(0xbf, 1, 6, 0, 0));
-        }
     }
     if e.loop_n > 1 && e.loop_step > 0 && e.adds.len() == 1 && !e.adds[0].src_is_base {
         // everything up to the atomic add runs once; the back edge targets the add itself:
@@ -497,8 +495,13 @@ fn generate(rng: &mut Rng) -> Scenario {
             // mov64 sign-extends an imm32: usable when the value round-trips
             let fits = addend as i64 as i32 as i64 as u64 == addend;
             let via_lddw = !fits || rng.chance(1, 3);
-            let base_reg = *rng.pick(&[1u8, 1, 6, 7, 8]);
-            let src_reg = *rng.pick(&[2u8, 3, 4, 5, 9, 0]);
+            // every general register can be the base, every one except r6 (the copy of the region
+            // address) and the base itself the source: each pair is a different x86 encoding
+            let base_reg = *rng.pick(&[1u8, 1, 6, 7, 8, 0, 2, 3, 4, 5, 9]);
+            let mut src_reg = *rng.pick(&[2u8, 3, 4, 5, 9, 0, 1, 7, 8]);
+            if src_reg == base_reg {
+                src_reg = if base_reg == 2 { 3 } else { 2 };
+            }
             let bias = if base_reg == 6 {
                 0
             } else {
@@ -527,8 +530,12 @@ fn generate(rng: &mut Rng) -> Scenario {
         if loop_n > 1 {
             // r9 is the loop counter
             for a in adds.iter_mut() {
+                if a.base_reg == 9 {
+                    a.base_reg = 7;
+                    a.bias = 0;
+                }
                 if a.src_reg == 9 {
-                    a.src_reg = 2;
+                    a.src_reg = if a.base_reg == 2 { 3 } else { 2 };
                 }
             }
         }
@@ -544,6 +551,12 @@ fn generate(rng: &mut Rng) -> Scenario {
             for a in adds.iter_mut() {
                 if a.base_reg == 8 {
                     a.base_reg = 7;
+                    if a.src_reg == 7 {
+                        a.src_reg = 2;
+                    }
+                }
+                if a.src_reg == 8 {
+                    a.src_reg = if a.base_reg == 2 { 3 } else { 2 };
                 }
             }
             let init = if rng.chance(1, 2) { u64::MAX - rng.below(4) } else { rng.next_u64() };
@@ -554,6 +567,14 @@ fn generate(rng: &mut Rng) -> Scenario {
         } else {
             None
         };
+        // after all the re-assignments above: the source is never the base (unless meant to be),
+        // never r6, never the loop counter, never the register that carries the stack self-check
+        for a in adds.iter_mut() {
+            let reserved = |r: u8| r == 6 || r == a.base_reg || (loop_n > 1 && r == 9) || (stack_check.is_some() && r == 8);
+            if !a.src_is_base && reserved(a.src_reg) {
+                a.src_reg = *[2u8, 3, 4, 5].iter().find(|r| !reserved(**r)).unwrap();
+            }
+        }
         execs.push(ExecSpec { engine, reach, adds, tail_load, loop_n, loop_step, in_callee, helper_first, stack_check });
     }
     let strategy = match rng.below(3) {
